@@ -119,45 +119,35 @@ Fixpoint val_eqb (a b : val) : bool :=
   end.
 
 (* ---------------------------------------------------------- canonical form *)
-(* A struct field that holds the zero value of its type is indistinguishable (in Go)
-   from a field never written; [norm] drops such fields (it cannot know the field's
-   static type, but for every type the zero value is recognisable by itself, except
-   that VNil / typed nil are zero only in slots of the matching type — which is the only
-   place a well-typed value can have them). Map entries are kept (a present key with a
-   zero value differs from an absent key). *)
-Fixpoint is_zero (v : val) : bool :=
-  match v with
-  | VNil => true
-  | VInt z => Z.eqb z 0
-  | VStr s => String.eqb s ""
-  | VStruct _ fs =>
-      (fix all (l : list (N * val)) : bool :=
-         match l with [] => true | (_, x) :: l' => is_zero x && all l' end) fs
-  | VPtr _ None => true
-  | VPtr _ (Some _) => false
-  | VMap _ _ None => true
-  | VMap _ _ (Some _) => false
-  end.
-
-Fixpoint norm (v : val) : val :=
+(* A struct field that holds the zero value of its (static) type is indistinguishable in
+   Go from a field never written; [norm] drops such fields and sorts fields and map
+   entries by key.  Map entries are always kept (a present key with a zero value differs
+   from an absent key), and so is the difference between nil and empty maps / nil and
+   non-nil pointers. *)
+Fixpoint norm (env : senv) (v : val) : val :=
   match v with
   | VStruct n fs =>
       VStruct n
         ((fix go (l : list (N * val)) : list (N * val) :=
             match l with
             | [] => []
-            | (k, x) :: l' => let x' := norm x in
-                              if is_zero x' then go l' else ains k x' (go l')
+            | (k, x) :: l' =>
+                let x' := norm env x in
+                let drop := match lookup_field env n k with
+                            | Some (_, ft) => val_eqb x' (zero ft)
+                            | None => false
+                            end in
+                if drop then go l' else ains k x' (go l')
             end) fs)
-  | VPtr t (Some x) => VPtr t (Some (norm x))
+  | VPtr t (Some x) => VPtr t (Some (norm env x))
   | VMap ks t (Some es) =>
       VMap ks t (Some
         ((fix go (l : list (N * val)) : list (N * val) :=
             match l with
             | [] => []
-            | (k, x) :: l' => ains k (norm x) (go l')
+            | (k, x) :: l' => ains k (norm env x) (go l')
             end) es))
   | _ => v
   end.
 
-Definition veq (a b : val) : bool := val_eqb (norm a) (norm b).
+Definition veq (env : senv) (a b : val) : bool := val_eqb (norm env a) (norm env b).
